@@ -1027,7 +1027,7 @@ def _isinstance_classes(ctx, mod, node, varname, fn, group=(), _depth=2):
       if g is fn:
         continue
       for c in calls_in(g):
-        if U.callee_of(mod, c) is fn:
+        if U.callee_of(mod, c, within=g) is fn:
           sites.append((g, c))
     union = set()
     for g, c in sites:
@@ -1261,7 +1261,7 @@ def _phases(mod, fn, depth=2):
         call = st.value
       if call is None:
         continue
-      callee = U.callee_of(mod, call)
+      callee = U.callee_of(mod, call, within=f)
       if callee is None or callee in seen:
         continue
       try:
